@@ -136,8 +136,18 @@ private:
   // meter-context.
   std::unique_ptr<sdk::instrumentationscope::InstrumentationScope> scope_;
   std::weak_ptr<sdk::metrics::MeterContext> meter_context_;
-  // Mapping between instrument-name and Aggregation Storage.
-  std::unordered_map<std::string, std::shared_ptr<MetricStorage>> storage_registry_;
+  // The storages of one instrument: one per matching view. Every handle created for the same
+  // instrument records into these storages.
+  struct InstrumentStorages
+  {
+    InstrumentDescriptor instrument_descriptor;
+    std::vector<std::shared_ptr<MetricStorage>> storages;
+  };
+  // Mapping between instrument-name and the Aggregation Storages of the instruments created under
+  // that name. All of them are collected.
+  std::unordered_multimap<std::string, InstrumentStorages> storage_registry_;
+  // Returns the storages registered for an identical instrument, or nullptr.
+  InstrumentStorages *FindInstrumentStorages(const InstrumentDescriptor &instrument_descriptor);
   std::shared_ptr<ObservableRegistry> observable_registry_;
   MeterConfig meter_config_;
   std::unique_ptr<SyncWritableMetricStorage> RegisterSyncMetricStorage(
